@@ -11,10 +11,10 @@ import types
 LEVEL = "proof"
 RULE = ("histories of <= 8 group operations (re-open by name, add [optionally a job already executed by the caller, "
         "optionally with max_samples / unknown keyword], run_parallel, run_sequential, rerun_failed_parallel/"
-        "sequential with replace or append, progress / list_*_jobs) with <= 4 added jobs x server scripts (per HTTP "
+        "sequential with replace or append, progress / list_*_jobs, adding again a sent job of the group) with <= 4 added jobs x server scripts (per HTTP "
         "request: accept with id + status / 429 / 500; ids mostly fresh, sometimes reused), run on the real JobGroup/"
         "RemoteJob/RPCHandler over a temporary directory under the `responses` library; streams: exhaustive short "
-        "histories over a 10-letter alphabet x fixed scripts, a corpus of past witnesses, random plain jobs, random sampler-like jobs "
+        "histories over a 12-letter alphabet x fixed scripts, a corpus of past witnesses, random plain jobs, random sampler-like jobs "
         "(job_context, delta parameters), malformed (unfilled parameters, unknown keywords, duplicate ids); every "
         "history also runs with a re-open inserted before each launch. After every operation: outcome (returned / "
         "exception class), memory, file content, re-opened group, requests received, number of answers consumed and "
@@ -242,6 +242,8 @@ def enc_op(o):
         return [2, o[1]]
     if k == "rerun":
         return [3, o[1], o[2]]
+    if k == "readd":
+        return [5, o[1]]
     return [4]
 
 
@@ -269,6 +271,8 @@ def show_op(o):
         return "g.run_sequential(0)" if o[1] else "g.run_parallel()"
     if k == "rerun":
         return f"g.rerun_failed_{'sequential(0, ' if o[1] else 'parallel('}replace_failed_jobs={bool(o[2])})"
+    if k == "readd":
+        return f"g.add(g[{o[1]}])  # only if g[{o[1]}] exists and was sent"
     return ["g.progress()", "g.list_successful_jobs()", "g.list_active_jobs()", "g.list_unsuccessful_jobs()"][o[1]]
 
 
@@ -304,6 +308,10 @@ def impl_step(env, st, o):
             g.add(job, **kw)
         elif k == "run":
             g.run_sequential(0) if o[1] else g.run_parallel()
+        elif k == "readd":
+            # the same object: only for a sent job (refusal expected); an unsent one would be Python aliasing
+            if o[1] < len(g._jobs) and g._jobs[o[1]].was_sent:
+                g.add(g._jobs[o[1]])
         elif k == "rerun":
             if o[1]:
                 g.rerun_failed_sequential(0, replace_failed_jobs=bool(o[2]))
@@ -378,6 +386,8 @@ def evaluate(env, ops, script, model_out):
     path = os.path.join(env.JobGroup._DIR_PATH, st["name"] + ".jgrp")
     st["g"] = env.JobGroup(st["name"])
     diverged = False       # only the operation that introduces a difference is reported
+    dup_seen = False
+    script_ids = [a[1] for a in script if a[0] == 0]
     try:
         for i, (o, mo) in enumerate(zip(ops, model_out)):
             env.log = []
@@ -387,7 +397,9 @@ def evaluate(env, ops, script, model_out):
             m_out, m_mem, m_disk, m_rel, m_log, m_cons, m_dirty, m_prog, m_lists = mo
             where = f"after `{show_op(o)}`"
             if code != m_out:
-                problems.append((i, f"model-outcome-{opname(o)}", f"outcome differs {where}",
+                sig = (f"duplicate-identifier-accepted-{opname(o)}" if m_out == 1 and code == 0
+                       else f"model-outcome-{opname(o)}")
+                problems.append((i, sig, f"outcome differs {where}",
                                  EXC.get(m_out, "returns"), EXC.get(code, "returns")))
                 break
             for r in env.log:
@@ -452,6 +464,13 @@ def evaluate(env, ops, script, model_out):
                     sig = f"reopened-differs-{kind}-after-{opname(o)}-{how}"
                 problems.append((i, sig, f"re-opening the group by name {where} ({how}) does not give the group in memory "
                                  f"[{kind}]; model ghost flag unsaved={m_dirty}", a, b))
+            # no identifier twice, in memory or on disk
+            for where_ids, idl in (("memory", [j[0][0] for j in mem if j[0]]), ("disk", [d[0][0] for d in dk if d[0]])):
+                if len(idl) != len(set(idl)) and len(set(script_ids)) == len(script_ids) and not dup_seen:
+                    dup_seen = True
+                    problems.append((i, f"identifier-twice-{where_ids}-after-{opname(o)}",
+                                     f"the same identifier appears twice in {where_ids} {where} (the server never issued an "
+                                     f"identifier twice)", None, idl))
             # accepted identifiers are on disk
             ids_mem = [j[0] for j in mem]
             ids_dk = [d[0] for d in dk]
@@ -543,7 +562,7 @@ def gen_history(rng, stream):
                     spec[1][0] = [[]]
             ops.append(["add", spec, rng.chance(1, 5), kms, kbad])
         elif k < 5:
-            ops.append(["reopen"])
+            ops.append(["reopen"] if rng.chance(1, 2) else ["readd", rng.below(max(1, adds + 1))])
         elif k < 8:
             ops.append(["run", rng.chance(1, 3)])
         elif k < 11:
@@ -556,7 +575,7 @@ def gen_history(rng, stream):
 ALPHABET = [["add", [1, [[], [], 1], [], [], [], 0], False, [], False],
             ["add", [2, [[], [[5]], 2], [[9]], [], [], 2], True, [], False],
             ["reopen"], ["run", False], ["run", True], ["rerun", False, False], ["rerun", False, True],
-            ["rerun", True, True], ["rerun", True, False], ["progress", 0]]
+            ["rerun", True, True], ["rerun", True, False], ["progress", 0], ["readd", 0], ["readd", 1]]
 FIXED_SCRIPTS = [
     [[0, 10, 2], [0, 11, 3], [0, 12, 1], [0, 13, 3], [0, 14, 2], [0, 15, 4], [0, 16, 2], [0, 17, 2], [0, 18, 2], [0, 19, 2]],
     [[0, 10, 3], [2], [0, 11, 1], [0, 12, 3], [1], [0, 13, 2], [0, 14, 3], [0, 15, 2], [2]],
@@ -580,6 +599,11 @@ CORPUS = [
     ([["add", _UNFILLED, False, [5], False], ["run", False]], [[0, 10, 0]]),
     ([["add", [1, [[], [], 1], [], [], [], 0], True, [], False], ["rerun", False, False]], [[0, 10, 0], [0, 11, 0], [0, 12, 1]]),
     ([["add", [1, [[], [], 1], [], [], [], 0], False, [], False], ["run", True]], [[0, 10, 0], [0, 11, 1]]),
+    # a sent job of the group added again, whatever gave it its identifier
+    ([["add", [1, [[], [], 1], [], [], [], 0], True, [], False], ["readd", 0], ["add", [2, [[], [], 2], [], [], [], 1], False, [], False],
+      ["run", False], ["readd", 1], ["progress", 0], ["rerun", False, True], ["readd", 0], ["readd", 1], ["progress", 0],
+      ["rerun", True, False], ["readd", 2], ["readd", 3], ["reopen"], ["readd", 2]],
+     [[0, 10, 0], [0, 11, 0], [0, 10, 3], [0, 11, 4], [0, 12, 0], [0, 13, 0], [0, 12, 3], [0, 13, 2], [0, 14, 0], [0, 14, 2]]),
 ]
 
 
